@@ -7,7 +7,7 @@ import "verifharness/sim"
 // chain length behaves like 5000.
 func genConfig(r *sim.Rand, tier string) sim.Config {
 	c := sim.Config{}
-	switch r.Weighted(20, 15, 30, 15, 20) {
+	switch r.Weighted(22, 18, 30, 12, 18) {
 	case 0:
 		c["batch"] = 1
 	case 1:
@@ -24,17 +24,27 @@ func genConfig(r *sim.Rand, tier string) sim.Config {
 	} else {
 		c["fd"] = int64(r.Range(0, 8))
 	}
-	if r.Pct(35) {
+	switch r.Weighted(40, 35, 25) { // mostly inside the chain that exists at boot: the historical sync has work to do
+	case 0:
 		c["start"] = 1
-	} else {
-		c["start"] = int64(r.Range(2, 40))
+	case 1:
+		c["start"] = int64(r.Range(2, 8))
+	default:
+		c["start"] = int64(r.Range(9, 40))
 	}
-	c["prelude"] = int64(r.Range(0, 8))
+	c["prelude"] = int64(r.Range(0, 14))
+	// slow consumer: the handler takes an entry and reads it only when the driver says so (consume steps)
+	if r.Pct(50) {
+		c["lag"] = 1
+	} else {
+		c["lag"] = 0
+	}
+	c["minerun"] = int64(r.Range(0, 45)) // percentage of mine steps that start a run of 2-7 consecutive mine steps
 	maxSteps := 50
 	if tier == "thorough" {
 		maxSteps = 90
 	}
-	c["steps"] = int64(r.Range(12, maxSteps))
+	c["steps"] = int64(r.Range(18, maxSteps))
 	for _, k := range []string{"en_drop_idle", "en_drop_req", "en_getlogs_fail", "en_sub_fail", "en_refuse", "en_restart", "en_removed", "en_foreign", "en_burst"} {
 		if r.Pct(75) {
 			c[k] = 1
@@ -80,6 +90,14 @@ func (w *world) genMine(r *sim.Rand) *sim.Step {
 	if cfg.Get("en_foreign", 1) == 1 && r.Pct(20) {
 		foreign = int64(r.U64() & 0x3f)
 	}
+	if w.mineRun > 0 { // inside a run: log-bearing blocks close together, so that one round spans several batches with logs
+		if gap > 2 {
+			gap = int64(r.Intn(3))
+		}
+		if ntx == 0 {
+			ntx = 1
+		}
+	}
 	return &sim.Step{Op: "mine", A: []int64{gap, ntx, perTx, removed, foreign, int64(r.Intn(3)), int64(r.Intn(5))}}
 }
 
@@ -92,6 +110,14 @@ func (w *world) gen(r *sim.Rand) *sim.Step {
 	}
 	prelude := cfg.Get("prelude", 3)
 	if n < prelude {
+		w.mineRun = 1
+		return w.genMine(r)
+	}
+	if n == prelude {
+		w.mineRun = 0
+	}
+	if w.mineRun > 0 && n > prelude {
+		w.mineRun--
 		return w.genMine(r)
 	}
 	if n == prelude {
@@ -104,8 +130,18 @@ func (w *world) gen(r *sim.Rand) *sim.Step {
 		return 0
 	}
 	cs := w.clientState()
-	var wMine, wAnn, wDropIdle, wArmDrop, wArmGet, wArmSub, wRefuse, wAdv, wRestart, wBoot int
+	var wMine, wAnn, wDropIdle, wArmDrop, wArmGet, wArmSub, wRefuse, wAdv, wRestart, wBoot, wConsume int
+	if w.lagMode {
+		wConsume = 6 // tokens in advance: some entries pass without waiting
+		if w.lagging() {
+			wConsume = 45
+		}
+	}
 	switch cs {
+	case "syncing": // historical sync in progress, the handler lags
+		wMine, wAdv = 15, 8
+		wArmDrop, wArmGet = on("en_drop_req", 4), on("en_getlogs_fail", 4)
+		wRestart = on("en_restart", 2)
 	case "subscribed":
 		wMine, wAnn, wAdv = 26, 30, 4
 		wDropIdle, wArmDrop, wArmGet, wArmSub, wRefuse = on("en_drop_idle", 6), on("en_drop_req", 6), on("en_getlogs_fail", 6), on("en_sub_fail", 2), on("en_refuse", 2)
@@ -118,8 +154,11 @@ func (w *world) gen(r *sim.Rand) *sim.Step {
 		wMine, wBoot, wRestart, wAdv = 15, 50, 10, 5
 		wArmDrop, wArmGet = on("en_drop_req", 8), on("en_getlogs_fail", 8)
 	}
-	switch r.Weighted(wMine, wAnn, wDropIdle, wArmDrop, wArmGet, wArmSub, wRefuse, wAdv, wRestart, wBoot) {
+	switch r.Weighted(wMine, wAnn, wDropIdle, wArmDrop, wArmGet, wArmSub, wRefuse, wAdv, wRestart, wBoot, wConsume) {
 	case 0:
+		if r.Pct(cfg.Get("minerun", 20)) {
+			w.mineRun = r.Range(1, 6)
+		}
 		return w.genMine(r)
 	case 1:
 		burst := int64(0)
@@ -141,7 +180,13 @@ func (w *world) gen(r *sim.Rand) *sim.Step {
 		return &sim.Step{Op: "advance", A: []int64{advanceChoices[r.Intn(len(advanceChoices))]}}
 	case 8:
 		return &sim.Step{Op: "restart"}
-	default:
+	case 9:
 		return &sim.Step{Op: "boot"}
+	default:
+		k := int64(r.Weighted(35, 20, 12, 8, 5)) // 1..5 entries
+		if r.Pct(20) {
+			k = 999 // everything that is queued
+		}
+		return &sim.Step{Op: "consume", A: []int64{k}}
 	}
 }
